@@ -120,6 +120,7 @@ type exRun struct {
 	created   []common.Address
 	touched   map[common.Address]map[common.Hash]bool
 	extraAdr  map[common.Address]bool
+	seen      map[common.Address]bool // every address the execution mentioned (the universe of the world digests)
 }
 
 // regObs is a state-variable registration a journal instruction made (for the closing queries)
@@ -132,9 +133,25 @@ var exCaller = common.HexToAddress("0x00000000000000000000000000000000000ca11e")
 
 func aspectAddr(i int) common.Address { return common.BigToAddress(big.NewInt(int64(0xa5ec00 + i))) }
 
-// runScenario executes one configuration on the implementation.
+// runScenario executes one configuration on the implementation.  World digests (C04 oracle) must be taken over one
+// fixed set of addresses and storage keys, so a first pass collects every address and key the execution ever
+// mentions and the second, reported pass starts with that set.
 func runScenario(cs *exCase, w *world, u progen.Universe, code0 []byte, debug bool) *exRun {
+	first := runScenarioWith(cs, w, u, code0, true, nil, nil)
+	if first.pan != "" {
+		return first
+	}
+	return runScenarioWith(cs, w, u, code0, debug, first.seen, first.touched)
+}
+
+func runScenarioWith(cs *exCase, w *world, u progen.Universe, code0 []byte, debug bool, seen0 map[common.Address]bool, touched0 map[common.Address]map[common.Hash]bool) *exRun {
 	r := &exRun{touched: map[common.Address]map[common.Hash]bool{}, extraAdr: map[common.Address]bool{}}
+	for a, ks := range touched0 {
+		r.touched[a] = map[common.Hash]bool{}
+		for k := range ks {
+			r.touched[a][k] = true
+		}
+	}
 	rec := &impl.Recorder{KeepMem: true}
 	r.rec = rec
 	var tr vm.EVMLogger
@@ -159,10 +176,20 @@ func runScenario(cs *exCase, w *world, u progen.Universe, code0 []byte, debug bo
 	r.env = env
 	r.tracer, r.state = env.EVM.Tracer(), env.State
 	w.apply(env.State)
-	seenAddrs := map[common.Address]bool{exCaller: true, u.EOA: true, u.Empty: true}
+	seenAddrs := map[common.Address]bool{exCaller: true, u.EOA: true, u.Empty: true, impl.Origin: true, impl.Coinbase: true}
 	for _, a := range u.Contracts {
 		seenAddrs[a] = true
 	}
+	for _, a := range u.Precomp {
+		seenAddrs[a] = true
+	}
+	// the address a top-level creation will use
+	seenAddrs[crypto.CreateAddress(exCaller, w.Nonce[exCaller])] = true
+	seenAddrs[crypto.CreateAddress2(exCaller, uint256.NewInt(7).Bytes32(), crypto.Keccak256(code0))] = true
+	for a := range seen0 {
+		seenAddrs[a] = true
+	}
+	r.seen = seenAddrs
 	installHost()
 	// bindings and behaviours
 	impl.Provider.Reset()
